@@ -24,7 +24,7 @@ def is_exp(kind, o):
 bad = 0; n = 0
 for kind, ctx in itertools.product(P.ALL_KINDS, P.CONTEXTS):
     faults = [None] + [(fk, pos) for fk in P.FAULTS for pos in P.POSITIONS
-                       if pos != "inside" or P.has_inside(kind)]
+                       if (pos != "inside" or P.has_inside(kind)) and P.usable(kind, ctx, (fk, pos))]
     for fault in faults:
         src = P.program(kind, ctx, fault)
         for gate in (False, True):
